@@ -1395,6 +1395,16 @@ impl Graph {
         Ok(output_ids_and_values)
     }
 
+    /// Return true if the subgraphs of an operator capture values which are
+    /// not nodes in this graph, and hence must come from an outer graph.
+    ///
+    /// These are not included in [`operator_dependencies`](Self::operator_dependencies).
+    fn has_outer_captures(&self, op_node: &OperatorNode) -> bool {
+        op_node
+            .capture_names()
+            .any(|name| self.get_node_id(name).is_none())
+    }
+
     /// Return the IDs of all nodes in the current graph that an operator
     /// depends on.
     ///
